@@ -124,6 +124,11 @@ def check(run, driver):
         data = rng.poisson(2.0, size=(36, 2)).astype(float)
         data[1:, 1] = rng.poisson(0.5 + 1.5 * data[:-1, 0])
         probes.append(("knn", method, data, dict(method=method, information="knn", max_lag=1, n_shuffles=8, alpha_forward=0.1, alpha_backward=0.1, k_means=3)))
+    # short, wide series: the LASSO methods take their plain-Lasso fall-back branch (T - max_lag <= n*max_lag + 1)
+    for method in ("lasso", "information_lasso", "standard"):
+        n, L = 4, 3
+        data = rng.standard_normal((int(rng.integers(L + 4, L + n * L + 2)), n))
+        probes.append(("gaussian", method, data, dict(method=method, information="gaussian", max_lag=L, n_shuffles=5, alpha_forward=0.1, alpha_backward=0.1)))
     fresh_spec = [{"data": p[2].tolist(), "kw": p[3]} for p in probes]
     env = dict(os.environ)
     pr = subprocess.run([sys.executable, "-c", FRESH % str(REPO)], input=json.dumps(fresh_spec), capture_output=True, text=True, env=env)
@@ -160,7 +165,7 @@ def check(run, driver):
             st_np = np.random.get_state()
             st_py = random.getstate()
             pres = step % 3
-            arg = data.copy() if pres == 0 else (np.asfortranarray(data) if pres == 1 else pd.DataFrame(data, columns=["X0", "X1"]))
+            arg = data.copy() if pres == 0 else (np.asfortranarray(data) if pres == 1 else pd.DataFrame(data, columns=[f"X{c}" for c in range(data.shape[1])]))
             with quiet():
                 G = discover_network(arg, **kw)
             st_np2 = np.random.get_state()
